@@ -83,6 +83,17 @@ pub fn set_death_note(note: &str) {
 
 thread_local! {
     static PANIC_INFO: RefCell<Option<(String, String, u32)>> = const { RefCell::new(None) };
+    /// what the scenario was doing (appended to the message of a panic violation, so that known
+    /// findings can tell e.g. a panic on a corrupted document from one on a pristine document)
+    static PANIC_CONTEXT: RefCell<String> = const { RefCell::new(String::new()) };
+}
+
+pub fn set_panic_context(s: &str) {
+    PANIC_CONTEXT.with(|c| {
+        let mut c = c.borrow_mut();
+        c.clear();
+        c.push_str(s);
+    });
 }
 
 fn install_panic_hook() {
@@ -165,6 +176,7 @@ pub fn exec_run(sc: &Scenario, tape: Tape, trace_on: bool, want_sample: bool) ->
             let hs = ctx.tape.draw(1 << 32);
             crate::hashseed::set_thread_hash_seed(hs);
             PANIC_INFO.with(|p| *p.borrow_mut() = None);
+            set_panic_context("");
             let res = std::panic::catch_unwind(std::panic::AssertUnwindSafe(|| run(&mut ctx)));
             let mut harness_error = None;
             let verdict = match res {
@@ -194,7 +206,14 @@ pub fn exec_run(sc: &Scenario, tape: Tape, trace_on: bool, want_sample: bool) ->
                         if panic_is_violation {
                             Err(Violation::new(
                                 format!("panic@{short}"),
-                                format!("panicked at {short}:{line}: {msg}"),
+                                {
+                                    let c = PANIC_CONTEXT.with(|c| c.borrow().clone());
+                                    if c.is_empty() {
+                                        format!("panicked at {short}:{line}: {msg}")
+                                    } else {
+                                        format!("panicked at {short}:{line}: {msg} [{c}]")
+                                    }
+                                },
                             ))
                         } else {
                             harness_error = Some(format!(
@@ -371,6 +390,8 @@ pub struct Known {
     pub status: String,
     pub oracle: String,
     pub contains: String,
+    /// further substrings that must all occur in the message
+    pub contains_all: Vec<String>,
     pub what: String,
 }
 
@@ -394,6 +415,11 @@ pub fn load_known(verif_dir: &Path) -> Result<Vec<Known>, String> {
             status: g("status"),
             oracle: g("oracle"),
             contains: g("contains"),
+            contains_all: e
+                .get("contains_all")
+                .and_then(Value::as_array)
+                .map(|a| a.iter().filter_map(|x| x.as_str().map(str::to_string)).collect())
+                .unwrap_or_default(),
             what: g("what"),
         });
     }
@@ -406,6 +432,7 @@ fn known_match<'a>(known: &'a [Known], prop: &str, oracle: &str, msg: &str) -> O
             && k.property == prop
             && k.oracle == oracle
             && (k.contains.is_empty() || msg.contains(&k.contains))
+            && k.contains_all.iter().all(|c| msg.contains(c.as_str()))
     })
 }
 
